@@ -44,6 +44,10 @@ func (e *Eng) safety(kind string, n ast.Node, c *ctx, goal string) {
 		return
 	}
 	e.oblig("safety:"+kind, e.site("safety:"+kind, n), c.st, goal, n.Pos())
+	if kind != "overflow" {
+		// execution continues only if the operation did not panic
+		e.assumeOnce(c.st, goal)
+	}
 }
 
 func (e *Eng) typeOf(x ast.Expr, c *ctx) types.Type {
@@ -609,7 +613,33 @@ func (e *Eng) evalBinary(x *ast.BinaryExpr, c *ctx) Val {
 		sub := c.st.clone()
 		sub.assume(guard)
 		b := e.eval(x.Y, c.with(sub))
-		if len(sub.heap) != len(c.st.heap) || heapChanged(sub, c.st) || ghostChanged(sub, c.st) {
+		if c.spec {
+			// contract expressions have no effects: only remember which initial heap
+			// symbols were introduced while evaluating the right operand
+			for k, v := range sub.heap {
+				if _, ok := c.st.heap[k]; !ok {
+					c.st.heap[k] = v
+				}
+			}
+		} else if len(sub.heap) != len(c.st.heap) && !heapChanged(sub, c.st) && !ghostChanged(sub, c.st) {
+			// only new (untouched) heap keys were looked at
+			for k, v := range sub.heap {
+				if _, ok := c.st.heap[k]; !ok {
+					c.st.heap[k] = v
+				}
+			}
+			for _, p := range sub.pc[nBase:] {
+				if p != guard {
+					c.st.pc = append(c.st.pc, "(=> "+guard+" "+p+")")
+				}
+			}
+			for k, v := range sub.vars {
+				if _, ok := c.st.vars[k]; !ok {
+					c.st.vars[k] = v
+				}
+			}
+			c.st.allocs = sub.allocs
+		} else if len(sub.heap) != len(c.st.heap) || heapChanged(sub, c.st) || ghostChanged(sub, c.st) {
 			other := c.st.clone()
 			other.assume(smtNot(guard))
 			m := mergeStates(guard, sub, other, nBase)
@@ -617,7 +647,7 @@ func (e *Eng) evalBinary(x *ast.BinaryExpr, c *ctx) Val {
 		} else {
 			// keep facts learned in the sub-evaluation, guarded
 			for _, p := range sub.pc[nBase:] {
-				if p != guard {
+				if p != guard && !strings.Contains(p, "q.") && !strings.Contains(guard, "q.") {
 					c.st.pc = append(c.st.pc, "(=> "+guard+" "+p+")")
 				}
 			}
@@ -640,8 +670,11 @@ func (e *Eng) evalBinary(x *ast.BinaryExpr, c *ctx) Val {
 
 func heapChanged(a, b *State) bool {
 	for k, v := range a.heap {
-		if b.heap[k] != v {
+		if w, ok := b.heap[k]; ok && w != v {
 			return true
+		}
+		if _, ok := b.heap[k]; !ok && v != heapInit(k, b.epoch) && v != primed(heapInit(k, b.epoch)) {
+			return true // first touched and already modified
 		}
 	}
 	return false
